@@ -489,7 +489,10 @@ theorem renderStd_shape (s : Std) (i : XInst) (hi : ValidX i) (t : Bytes) (ht : 
   case numMonth =>
     simp only [num12]; split
     · exact ⟨[dS], by simp [symStd], ⟨shape_dig _, trivial⟩⟩
-    · exact ⟨[dS, dS], by simp [symStd], shape_pad2 _⟩
+    · refine ⟨[[(49, 49)], [(48, 50)]], by simp [symStd], ?_⟩
+      have h1 := shape_dig_small (i.month / 10) 1 1 (by omega) (by omega) (by omega)
+      have h2 := shape_dig_small i.month 0 2 (by omega) (by omega) (by omega)
+      exact ⟨by simpa using h1, by simpa using h2, trivial⟩
   case zeroMonth =>
     refine ⟨[[(48, 49)], dS], by simp [symStd], ?_⟩
     refine ⟨?_, shape_dig _, trivial⟩
@@ -505,19 +508,40 @@ theorem renderStd_shape (s : Std) (i : XInst) (hi : ValidX i) (t : Bytes) (ht : 
     obtain ⟨sh, hsh, hb⟩ := List.any_eq_true.mp this
     exact ⟨sh, hsh, hasShape_of_B hb⟩
   case day =>
+    have hd31 : i.day ≤ 31 := by
+      have : daysIn i.month i.year ≤ 31 := by
+        simp only [daysIn]; split
+        · split <;> omega
+        · split <;> omega
+      omega
     simp only [num12]; split
     · exact ⟨[dS], by simp [symStd], ⟨shape_dig _, trivial⟩⟩
-    · exact ⟨[dS, dS], by simp [symStd], shape_pad2 _⟩
+    · refine ⟨[[(49, 51)], dS], by simp [symStd], ?_⟩
+      have h1 := shape_dig_small (i.day / 10) 1 3 (by omega) (by omega) (by omega)
+      exact ⟨by simpa using h1, shape_dig _, trivial⟩
   case underDay =>
+    have hd31 : i.day ≤ 31 := by
+      have : daysIn i.month i.year ≤ 31 := by
+        simp only [daysIn]; split
+        · split <;> omega
+        · split <;> omega
+      omega
     split
     · exact ⟨[bS 32, dS], by simp [symStd], ⟨by rw [inCls_bS]; rfl, shape_dig _, trivial⟩⟩
-    · exact ⟨[dS, dS], by simp [symStd], shape_pad2 _⟩
+    · refine ⟨[[(49, 51)], dS], by simp [symStd], ?_⟩
+      have h1 := shape_dig_small (i.day / 10) 1 3 (by omega) (by omega) (by omega)
+      exact ⟨by simpa using h1, shape_dig _, trivial⟩
   case zeroDay => exact ⟨_, by simp [symStd], shape_pad2 _⟩
   case hour => exact ⟨_, by simp [symStd], shape_pad2 _⟩
   case hour12 =>
+    have hh12 : 1 ≤ hour12Of i.hour ∧ hour12Of i.hour ≤ 12 := by
+      by_cases h0 : i.hour % 12 = 0 <;> simp [hour12Of, h0] <;> omega
     simp only [num12]; split
     · exact ⟨[dS], by simp [symStd], ⟨shape_dig _, trivial⟩⟩
-    · exact ⟨[dS, dS], by simp [symStd], shape_pad2 _⟩
+    · refine ⟨[[(49, 49)], [(48, 50)]], by simp [symStd], ?_⟩
+      have h1 := shape_dig_small (hour12Of i.hour / 10) 1 1 (by omega) (by omega) (by omega)
+      have h2 := shape_dig_small (hour12Of i.hour) 0 2 (by omega) (by omega) (by omega)
+      exact ⟨by simpa using h1, by simpa using h2, trivial⟩
   case zeroHour12 => exact ⟨_, by simp [symStd], shape_pad2 _⟩
   case minute =>
     simp only [num12]; split
